@@ -69,6 +69,10 @@ type answer struct {
 	// the Return message.  Can only be read after resultsReady is set in
 	// flags.
 	err error
+
+	// ready is created when the returning flag is set and closed when
+	// resultsReady is set.
+	ready chan struct{}
 }
 
 type answerFlags uint8
@@ -78,6 +82,11 @@ const (
 	finishReceived
 	resultsReady
 	releaseResultCapsFlag
+
+	// returning is set once Return has been called.  Until resultsReady
+	// is also set, the results are being moved out of the Return message
+	// and neither they nor pcall may be used for pipelined calls.
+	returning
 )
 
 // errorAnswer returns a placeholder answer with an error result already set.
@@ -158,6 +167,16 @@ func (ans *answer) setBootstrap(c *capnp.Client) error {
 //
 // The caller must NOT be holding onto ans.c.mu or the sender lock.
 func (ans *answer) Return(e error) {
+	// Pipelined calls read the results (including the message's
+	// capability table) through pcall.  Stop the receive goroutine from
+	// starting new ones and wait for the ones being delivered before
+	// taking the capability table out of the message.
+	ans.c.mu.Lock()
+	ans.flags |= returning
+	ans.ready = make(chan struct{})
+	ans.c.mu.Unlock()
+	ans.pcalls.Wait()
+
 	var cstates []capnp.ClientState
 	if ans.results.IsValid() {
 		ans.resultCapTable, cstates = extractCapTable(ans.results.Message())
@@ -207,6 +226,9 @@ func (ans *answer) Return(e error) {
 func (ans *answer) sendReturn(cstates []capnp.ClientState) (releaseList, error) {
 	ans.pcall = nil
 	ans.flags |= resultsReady
+	if ans.ready != nil {
+		close(ans.ready)
+	}
 	var err error
 	ans.exportRefs, err = ans.c.fillPayloadCapTable(ans.results, ans.resultCapTable, cstates)
 	if err != nil {
@@ -250,6 +272,9 @@ func (ans *answer) sendException(e error) releaseList {
 	ans.err = e
 	ans.pcall = nil
 	ans.flags |= resultsReady
+	if ans.ready != nil {
+		close(ans.ready)
+	}
 
 	select {
 	case <-ans.c.bgctx.Done():
